@@ -1137,7 +1137,7 @@ impl Gen {
             }
             3 => { self.open("view"); self.battr("wx:for", &["list"]); self.gt(); self.bind(&["index"], t, NO); self.lit(": "); self.bind(&["item", ".", "name"], t, NO); self.end("view"); }
             4 => {
-                self.open("view"); self.battr("wx:for", &["list"]); self.sattr("wx:for-item", "it"); self.sattr("wx:for-index", "idx"); self.sattr("wx:key", "id");
+                self.open("view"); self.battr("wx:for", &["list"]); self.sattr("wx:for-item", "it"); self.sattr("wx:for-index", "idx"); self.sattr("wx:key", if t == '"' { "id" } else { " id " });
                 self.gt(); self.bind(&["idx"], t, NO); self.lit("-"); self.bind(&["it", ".", "t"], t, NO); self.lit(" end"); self.end("view");
             }
             5 => {
@@ -1286,7 +1286,7 @@ impl Gen {
                         0 => { let e = self.rexpr(); self.attr("wx:for", 1, e, 0, '"', sc); }
                         1 => self.sattr("wx:for-item", item),
                         2 => self.sattr("wx:for-index", index),
-                        _ => { let i = self.rng.below(3); self.sattr("wx:key", ["id", "*this", "k\u{5B57}"][i]) }
+                        _ => { let i = self.rng.below(5); self.sattr("wx:key", ["id", "*this", "k\u{5B57}", " id ", "\n\tid\u{1F600} "][i]) }
                     }
                 }
                 if t == "view" { self.rattrs(sc, false); }
